@@ -52,9 +52,10 @@ def special_progs(rng):
             q = P(synth.mkset(0, [synth.mkset(1, [], [], [{"id": 5, "out": 2}])], [mk(1, 0, [2])]), [], 0, "none+value-unexported:sig", cleanup=ic, err=ie)
             for x in spec.all_sets(q["tree"]):
                 if x["id"] == 1:
-                    x["pkg"] = 1
+                    x["pkg"] = 1; x.pop("inline", None)
                     for w in x["values"]:
                         w["unexported"] = True; w["ok"] = False
+            q["type_pkg"] = {}
             out.append(q)
     # two anonymous inline sets in one Build, one of them contributing nothing
     sa = synth.mkset(1, [], [mk(1, 0, [])]); sb = synth.mkset(2, [], [mk(2, 2, [])])
@@ -101,7 +102,7 @@ def special_progs(rng):
                 pr["pkg"] = 1
         out.append(q)
     # a user-chosen parameter name equal to the name Wire invents for an earlier blank or renamed parameter
-    for params, tnames in ((["_", "foo"], {1: "Foo"}), (["err", "err2"], {}), (["cleanup", "cleanup2"], {}), (["", "t1"], {}), (["_", "_", "foo2"], {1: "Foo", 2: "Foo2"})):
+    for params, tnames in ((["_", "foo"], {1: "Foo"}), (["err", "err2"], {}), (["cleanup", "cleanup2"], {}), (["_", "t1"], {}), (["_", "_", "foo2"], {1: "Foo", 2: "Foo2"})):
         giv = [2, 4] if len(params) == 2 else [2, 4, 6]
         q = P(synth.mkset(0, [], [mk(1, 0, giv, cleanup=True, err=True)]), giv, 0, "none:param-names-" + "-".join(p or "blank" for p in params), cleanup=True, err=True)
         q["names"] = {"types": tnames, "params": params, "libname": None, "app_decls": []}; q["same_pkg_name"] = False
@@ -176,6 +177,8 @@ def gen_progs(rng, n, pid):
             opts["names_p"] = 0.9 if pid == "C14" else 0.5
         if pid in ("C13", "C01", "C10", "C15"):
             opts["same_pkg_p"] = 0.35
+        if pid in ("C01", "C14", "C10", "C13", "C16"):
+            opts["lib2_p"] = 0.55
         if pid in ("C05", "C10"):
             opts["dupset_p"] = 0.08
         if pid in ("C08", "C10"):
@@ -249,6 +252,7 @@ def eng_prog(pid, tier, wd, known, replay=None):
         rp["kinds"] = {int(k): v for k, v in (rp.get("kinds") or {}).items()}
         rp["extra_fields"] = {int(k): v for k, v in (rp.get("extra_fields") or {}).items()}
         rp["extra_impl"] = {int(k): v for k, v in (rp.get("extra_impl") or {}).items()}
+        rp["type_pkg"] = {int(k): v for k, v in (rp.get("type_pkg") or {}).items()}
         progs, skipped = [rp], {}
     else:
         n = 260 if tier == "quick" else 2500
